@@ -356,14 +356,14 @@ func (r *Run) heapWFTerm(key string, H Term, wm Term) Term {
 		if ok.S == "true" {
 			return tTrue
 		}
-		return Term{fmt.Sprintf("(forall ((wx Int)) (! %s :pattern (%s)))", ok.S, sel(H, Term{"wx", "Int"}).S), "Bool"}
+		return Term{fmt.Sprintf("(forall ((wx Int)) (! (=> (<= wx %s) %s) :pattern (%s)))", wm.S, ok.S, sel(H, Term{"wx", "Int"}).S), "Bool"}
 	case "A":
 		e := sel(sel(H, Term{"wx", "Int"}), Term{"wi", "Int"})
 		ok := u.okTerm(d.T, e, wm)
 		if ok.S == "true" {
 			return tTrue
 		}
-		return Term{fmt.Sprintf("(forall ((wx Int) (wi Int)) (! %s :pattern (%s)))", ok.S, e.S), "Bool"}
+		return Term{fmt.Sprintf("(forall ((wx Int) (wi Int)) (! (=> (<= wx %s) %s) :pattern (%s)))", wm.S, ok.S, e.S), "Bool"}
 	case "MV":
 		ks := arrayKeySort(arrayValSort(H.Sort))
 		e := sel(sel(H, Term{"wx", "Int"}), Term{"wk", ks})
@@ -371,7 +371,7 @@ func (r *Run) heapWFTerm(key string, H Term, wm Term) Term {
 		if ok.S == "true" {
 			return tTrue
 		}
-		return Term{fmt.Sprintf("(forall ((wx Int) (wk %s)) (! %s :pattern (%s)))", ks, ok.S, e.S), "Bool"}
+		return Term{fmt.Sprintf("(forall ((wx Int) (wk %s)) (! (=> (<= wx %s) %s) :pattern (%s)))", ks, wm.S, ok.S, e.S), "Bool"}
 	case "G":
 		return u.okTerm(d.T, H, wm)
 	}
